@@ -3,6 +3,7 @@ CONSTANTS
   NCH = 24
   NB = 6
   Variant = "fixed"
+  NGRP = 3
 INVARIANT LeafSettingsInv
 INVARIANT GroupsPartitionInv
 CHECK_DEADLOCK FALSE
